@@ -24,6 +24,12 @@ FLOORS = {"quick": {"evaluations": 2000, "distinct_nontrivial": 40,
                        "hooks": ["lambdify:BoostMatrix", "lambdify:RotationYMatrix", "lambdify:MatrixMultiplication"]}}
 CASE_TIMEOUT = {"quick": 120, "thorough": 300}
 
+class GeneratedCodeError(Exception):
+    def __init__(self, name, cse, msg):
+        super().__init__(f"{name} (cse={cse}): {msg}")
+        self.name, self.cse, self.msg = name, cse, msg
+
+
 ETA = np.diag([1.0, -1.0, -1.0, -1.0])
 EPS = np.finfo(float).eps
 DIRS = ["random", "x", "y", "z", "-z", "xy-plane", "xz-plane", "near-z"]
@@ -67,9 +73,27 @@ def setup_worker(rec, ctx) -> None:
     n = L.ArraySize(p)
     F: dict = {}
 
+    def guarded(name, cse, build):
+        """Code generation and execution of generated code are the system under test: an exception there is
+        an observation about ampform (violation ``generated_code_raises``), not a harness failure."""
+        try:
+            f = build()
+        except Exception as exc:  # noqa: BLE001
+            f, err = None, f"lambdify failed: {type(exc).__name__}: {exc}"
+
+        def call(*a):
+            if f is None:
+                raise GeneratedCodeError(name, cse, err)
+            try:
+                with np.errstate(all="ignore"):
+                    return f(*a)
+            except Exception as exc:  # noqa: BLE001
+                raise GeneratedCodeError(name, cse, f"{type(exc).__name__}: {exc}") from exc
+        return call
+
     def lam(name, args, expr):
         for cse in (True, False):
-            F[name, cse] = sp.lambdify(args, expr.doit(), cse=cse)
+            F[name, cse] = guarded(name, cse, lambda cse=cse: sp.lambdify(args, expr.doit(), cse=cse))
         rec.hit(f"lambdify:{name.split('|')[0]}")
 
     lam("BoostMatrix", [p], L.BoostMatrix(p))
@@ -91,11 +115,20 @@ def setup_worker(rec, ctx) -> None:
     beta = L.three_momentum_norm(p) / L.Energy(p)
     lam("ArrayMultiplication|chain", [p], ArrayMultiplication(
         L.BoostZMatrix(beta, n), L.RotationYMatrix(-Theta(p), n), L.RotationZMatrix(-Phi(p), n), p))
+    # composite momenta p1+p2 (how HelicityAdapter / compute_helicity_angles feed sub-system momenta)
+    from ampform.sympy._array_expressions import ArraySum
+    p1 = L.FourMomentumSymbol("p1", shape=[]); p2 = L.FourMomentumSymbol("p2", shape=[])
+    ps = ArraySum(p1, p2)
+    lam("NegativeMomentum|sum", [p1, p2], L.NegativeMomentum(ps))
+    lam("BoostMatrix|sum", [p1, p2], L.BoostMatrix(ps))
+    lam("BoostMatrix|negsum", [p1, p2], L.BoostMatrix(L.NegativeMomentum(ps)))
+    lam("ArrayMultiplication|sum", [p1, p2], ArrayMultiplication(L.BoostMatrix(ps), p1))
+    lam("ArrayMultiplication|negsum", [p1, p2], ArrayMultiplication(L.BoostMatrix(L.NegativeMomentum(ps)), L.NegativeMomentum(ps)))
     # explicit symbolic matrices (the library's own as_explicit)
     def lam_explicit(name, args, mat):
         mat = mat.doit()
         for cse in (True, False):
-            F[name, cse] = sp.lambdify(args, mat, cse=cse)
+            F[name, cse] = guarded(name, cse, lambda cse=cse: sp.lambdify(args, mat, cse=cse))
     E_, px_, py_, pz_ = sp.symbols("E px py pz", real=True)
     comp = {L.Energy(p): E_, L.FourMomentumX(p): px_, L.FourMomentumY(p): py_, L.FourMomentumZ(p): pz_,
             L.EuclideanNormSquared(L.ThreeMomentum(p)): px_**2 + py_**2 + pz_**2}
@@ -178,6 +211,15 @@ def _lorentz_checks(rec, name, Lm, gamma, feats, w):
 
 
 def run_case(case, rec, ctx) -> None:
+    try:
+        _run_case(case, rec, ctx)
+    except GeneratedCodeError as exc:
+        rec.check(False, "generated_code_raises", f"generated NumPy code raised: {exc}",
+                  {"case": {k: v for k, v in case.items() if k != "cost"}},
+                  {"family": case["family"], "zero_three_momentum": case["family"] == "rest"})
+
+
+def _run_case(case, rec, ctx) -> None:
     F = ctx["F"]
     rng = np.random.default_rng([ctx["seed"], 8, case["idx"]])
     cse = case["cse"]
@@ -228,6 +270,31 @@ def run_case(case, rec, ctx) -> None:
             # operation order, so they may differ by ~eps*gamma^3 in absolute terms
             rec.check(bool((dev <= 64 * EPS * gamma ** 3).all()), "explicit_mismatch",
                       f"generated code != as_explicit() matrix (dev {dev.max():.3g})", w, feats)
+            # composite momentum: split p into two parts and feed the symbolic sum
+            frac = rng.uniform(0.1, 0.9, n)[:, None]
+            kick = np.zeros((n, 4)); kick[:, 1:] = rng.normal(size=(n, 3)) * (0.3 * m)[:, None]
+            q1 = p * frac + kick; q2 = p - q1
+            psum = q1 + q2
+            g2 = (psum[:, 0] / np.sqrt(np.abs(psum[:, 0] ** 2 - (psum[:, 1:] ** 2).sum(1))))
+            nps = np.asarray(F["NegativeMomentum|sum", cse](q1, q2), dtype=float).reshape(n, 4)
+            rec.check(bool(np.array_equal(nps, psum * np.array([1, -1, -1, -1.0]))), "negative_momentum",
+                      "NegativeMomentum(p1+p2) != (E,-px,-py,-pz) of the summed momentum", w, feats)
+            Ls = _mat(F["BoostMatrix|sum", cse](q1, q2), n)
+            Lref = _mat(F["BoostMatrix", cse](psum), n)
+            rec.check(bool(np.array_equal(Ls, Lref)), "composite_momentum",
+                      f"BoostMatrix(p1+p2) differs from BoostMatrix evaluated on the summed array (dev {np.abs(Ls - Lref).max():.3g})", w, feats)
+            Ln = _mat(F["BoostMatrix|negsum", cse](q1, q2), n)
+            Lnref = _mat(F["BoostMatrix|neg", cse](psum), n)
+            rec.check(bool(np.array_equal(Ln, Lnref)), "composite_momentum",
+                      f"BoostMatrix(NegativeMomentum(p1+p2)) differs from BoostMatrix(NegativeMomentum(.)) on the summed array (dev {np.abs(Ln - Lnref).max():.3g})", w, feats)
+            _lorentz_checks(rec, "BoostMatrix(NegativeMomentum(p1+p2))", Ln, g2, feats, w)
+            r1 = np.asarray(F["ArrayMultiplication|sum", cse](q1, q2), dtype=float).reshape(n, 4)
+            rec.check(bool((np.abs(r1 - np.einsum("nij,nj->ni", Lref, q1)) <= 64 * EPS * (g2 ** 2 * np.abs(q1).max(1))[:, None]).all()),
+                      "array_multiplication", "ArrayMultiplication(BoostMatrix(p1+p2), p1) differs from matrix-vector product", w, feats)
+            r2 = np.asarray(F["ArrayMultiplication|negsum", cse](q1, q2), dtype=float).reshape(n, 4)
+            ms = np.sqrt(np.abs(psum[:, 0] ** 2 - (psum[:, 1:] ** 2).sum(1)))
+            ok = (np.abs(r2[:, 0] - ms) <= 256 * EPS * g2 ** 2 * ms) & (np.abs(r2[:, 1:]).max(axis=1) <= 256 * EPS * g2 ** 2 * ms)
+            rec.check(bool(ok.all()), "rest_frame", "BoostMatrix(-P) applied to -P (P = p1+p2) is not (m,0,0,0)", w, feats)
         elif fam == "boostz":
             beta = p[:, 3] / p[:, 0]
             Bz = _mat(F["BoostZMatrix", cse](beta, p), n)
